@@ -687,7 +687,9 @@ MANIFEST = {
     "level_text": "Static, all-paths: decides for every CFG path/exit of handle_state_step, error_handler, the three pairing "
     "generators and the four add/remove-pairing functions that an error TLV or wrong state can only raise (with the "
     "documented class for each of the 256 one-byte codes) and that a step check follows every yield before the reply is "
-    "read. This is the property's whole mechanism; only TLV byte decoding is outside.",
+    "read, and that the filter through which the IP and CoAP transports decode a reply cannot hide its State or Error item "
+    "(every yielded filter names both; the decoder skips an unwanted item instead of ending the parse). This is the "
+    "property's whole mechanism; only TLV byte decoding proper is outside (C15).",
     "level_note": "Trusted: ast parse = what runs; TLV decoding (C15); decorators of the BLE functions treated as transparent; "
     "a reply dict is what dict(TLV.decode_*) returns. Unrecognised restructurings end in ANALYSIS-ERROR (exit 2), not a pass.",
 }
